@@ -14,8 +14,8 @@ type GoEntry struct {
 	Entry *ssa.Function
 	Multi bool // the go statement sits in a loop (several instances run concurrently)
 	Recv  *types.Named
-	// Parent is the goroutine entry whose own body contains this go statement (nil when the
-	// goroutine is started by a constructor or by a function that is not itself an entry).
+	// Parent is the goroutine entry whose code (own body or helpers it calls) contains this go
+	// statement (nil when the goroutine is started by a constructor).
 	Parent *GoEntry
 }
 
@@ -79,7 +79,8 @@ func (p *Prog) GoEntries() []*GoEntry {
 	}
 	for _, e := range out {
 		for _, e2 := range out {
-			if e2 != e && e2.Entry != nil && e.Stmt.Parent() == e2.Entry {
+			// the go statement sits in the code another goroutine entry runs (its own body or a helper it calls)
+			if e2 != e && e2.Entry != nil && e2.Entry != e.Entry && p.Reach(e2.Entry)[p.Norm(e.Stmt.Parent())] {
 				e.Parent = e2
 			}
 		}
